@@ -228,6 +228,13 @@ def judge(chk, cls, kind, sh, Q, exact, measure, desc):
         if st3 != "ok" or one.shape != (1,) or abs(one[0] - got[k]) > density * tol:
             chk.violation("form-factor-single-vector-batch", dict(d, q=Q[k].tolist(), outcome=st3, single=None if st3 != "ok" else str(one), batch=str(got[k])))
             break
+    # wave vectors given as an integer array mean the same vectors as the float array
+    Qi = np.array([[1, 0, 2], [0, 3, 1], [2, 2, 2], [0, 0, 0], [0, 0, 1]])
+    fi = C.excname(lambda: np.asarray(sh.compute_form_factor_amplitude(Qi.copy(), density=density)))
+    ff = C.excname(lambda: np.asarray(sh.compute_form_factor_amplitude(Qi.astype(float), density=density)))
+    if fi[0] != ff[0] or (fi[0] == "ok" and (fi[1].shape != ff[1].shape or np.max(np.abs(fi[1] - ff[1])) > 1e-12 * density * measure)):
+        chk.violation("form-factor-input-form", dict(d, form="integer array", outcome=fi[0], float_outcome=ff[0],
+                                                     got=None if fi[0] != "ok" else str(fi[1]), expected=None if ff[0] != "ok" else str(ff[1])))
     chk.sample(dict(cls=cls, kind=kind, q=Q[0].tolist(), impl=[float(got[0].real), float(got[0].imag)], exact=[float(density * exact[0].real), float(density * exact[0].imag)]))
 
 
